@@ -5,6 +5,7 @@ import (
 	"encoding/json"
 	"errors"
 	"fmt"
+	"io"
 	"log/slog"
 	"math/rand"
 	"net"
@@ -18,6 +19,7 @@ import (
 	"sync"
 	"sync/atomic"
 	"syscall"
+	"testing/iotest"
 	"time"
 
 	"github.com/tigerwill90/fox"
@@ -360,6 +362,29 @@ func staticInvalidCases(r *Run, evals *atomic.Int64) {
 		{"nil no-method handler", "invalidconfig", func() error { return newErr(fox.WithNoMethodHandler(nil)) }},
 		{"nil options handler", "invalidconfig", func() error { return newErr(fox.WithOptionsHandler(nil)) }},
 	}
+	// the ends of the default limits: ParamsLen is the number of wildcards up to the largest number a route may have, and
+	// one more is refused
+	many := func(n int) string { return strings.Repeat("/{p}", n) }
+	for _, n := range []int{255, 256, 65535} {
+		n := n
+		cases = append(cases, tc{fmt.Sprintf("route with %d wildcards", n), "ok", func() error {
+			rte, err := rt.NewRoute(many(n), h)
+			if err == nil && rte.ParamsLen() != n {
+				return fmt.Errorf("ParamsLen()=%d for a pattern with %d wildcards", rte.ParamsLen(), n)
+			}
+			return err
+		}})
+	}
+	for _, n := range []int{65536, 65537, 65541} {
+		n := n
+		cases = append(cases, tc{fmt.Sprintf("route with %d wildcards", n), "invalid", func() error {
+			rte, err := rt.NewRoute(many(n), h)
+			if err == nil {
+				return fmt.Errorf("accepted, ParamsLen()=%d", rte.ParamsLen())
+			}
+			return err
+		}})
+	}
 	for i, bk := range badKeys {
 		bk := bk
 		cases = append(cases, tc{fmt.Sprintf("annotation key that cannot be a map key #%d", i), "invalidconfig", func() error { _, err := rt.NewRoute("/x", h, fox.WithAnnotation(bk(), 1)); return err }})
@@ -387,7 +412,7 @@ func staticInvalidCases(r *Run, evals *atomic.Int64) {
 
 func checkC19(r *Run) {
 	gen := fmt.Sprintf(`---- MODULE Gen_Options ----
-GenGlobalOpts == { <<"ign", TRUE>>, <<"ign", FALSE>>, <<"red", TRUE>>, <<"red", FALSE>>, <<"res", 1>> }
+GenGlobalOpts == { <<"ign", TRUE>>, <<"ign", FALSE>>, <<"red", TRUE>>, <<"red", FALSE>>, <<"res", 1>>, <<"res", 3>> }
 GenRouteOpts == { <<"ign", TRUE>>, <<"ign", FALSE>>, <<"red", TRUE>>, <<"red", FALSE>>, <<"res", 2>>, <<"res", 0>>,
                   <<"ann", "k1", 1>>, <<"ann", "k1", 2>>, <<"ann", "k1", 0>>, <<"ann", "k2", 1>>, <<"ann", "bad", 1>> }
 GenMaxGlobal == %d
@@ -466,6 +491,40 @@ func resolverOpt(kind string) fox.ClientIPResolver {
 	return nil
 }
 
+// ownStatusWriter is a fox.ResponseWriter of the application's own: it keeps its own status and size and writes to the
+// raw connection, not through the writer it replaces.
+type ownStatusWriter struct {
+	fox.ResponseWriter
+	raw    http.ResponseWriter
+	status int
+	size   int
+}
+
+func (w *ownStatusWriter) Header() http.Header { return w.raw.Header() }
+func (w *ownStatusWriter) WriteHeader(code int) {
+	if w.status == 0 {
+		w.status = code
+		w.raw.WriteHeader(code)
+	}
+}
+func (w *ownStatusWriter) Write(b []byte) (int, error) {
+	if w.status == 0 {
+		w.WriteHeader(200)
+	}
+	n, err := w.raw.Write(b)
+	w.size += n
+	return n, err
+}
+func (w *ownStatusWriter) WriteString(s string) (int, error) { return w.Write([]byte(s)) }
+func (w *ownStatusWriter) Status() int {
+	if w.status == 0 {
+		return 200
+	}
+	return w.status
+}
+func (w *ownStatusWriter) Written() bool { return w.status != 0 }
+func (w *ownStatusWriter) Size() int     { return w.size }
+
 func replayLogVec(r *Run, v logVec, evals *atomic.Int64) {
 	for _, cs := range v.Cases {
 		if v.Kind == "redirect" && !(cs.Did[0] == "status" && cs.Did[1].(float64) == 301 && cs.Loc) {
@@ -474,7 +533,16 @@ func replayLogVec(r *Run, v logVec, evals *atomic.Int64) {
 		var seq atomic.Int64
 		capH := &captureHandler{seq: &seq}
 		handlerSeq := 0
+		// every fifth plain-status case: the handler first installs a writer of its own (SetWriter) that records for itself and
+		// writes to the raw connection, past the writer the context had; the record describes what the context's writer
+		// reports when the handler returns
+		swapWriter := int(evals.Load())%5 == 2 && cs.Did[0].(string) == "status" && cs.Did[1].(float64) >= 200
 		did := func(c fox.Context) {
+			if swapWriter {
+				if u, ok := c.Writer().(interface{ Unwrap() http.ResponseWriter }); ok {
+					c.SetWriter(&ownStatusWriter{ResponseWriter: c.Writer(), raw: u.Unwrap()})
+				}
+			}
 			if cs.Loc {
 				c.Writer().Header().Set("Location", "/elsewhere")
 			}
@@ -727,6 +795,14 @@ func (w flushErrWriter) FlushError() error {
 	return nil
 }
 
+// readerFromWriter is an underlying writer with a ReadFrom of its own that, like net/http's, sends nothing - not even
+// the header - when the source yields nothing.
+type readerFromWriter struct{ *plainWriter }
+
+func (w readerFromWriter) ReadFrom(src io.Reader) (int64, error) {
+	return io.Copy(struct{ io.Writer }{w.plainWriter}, src)
+}
+
 func replayRecVec(r *Run, v recVec, evals *atomic.Int64) {
 	sites := []string{"route", "route-tsr", "route-host", "route-updates", "inner-middleware", "noroute", "nomethod", "options"}
 	for _, cs := range v.Cases {
@@ -734,6 +810,9 @@ func replayRecVec(r *Run, v recVec, evals *atomic.Int64) {
 			under := []string{"plain"}
 			if cs.Progress == "flushed" {
 				under = []string{"flusher", "flusherr"}
+			}
+			if cs.Progress == "emptycopy" {
+				under = []string{"plain", "readerfrom"}
 			}
 			for _, uw := range under {
 				replayRecCase(r, v, cs.Progress, cs.Repanic, cs.Response, cs.Logged, site, uw, evals)
@@ -765,6 +844,9 @@ func replayRecCase(r *Run, v recVec, progress string, repanic bool, response str
 					c.Writer().Write([]byte("par"))
 				case "flushed":
 					_ = c.Writer().FlushError() // sends the implicit 200 header: the response has started
+				case "emptycopy": // a source that yields nothing: no byte and no header went out
+					_, _ = io.Copy(c.Writer(), strings.NewReader(""))
+					_, _ = c.Writer().ReadFrom(iotest.ErrReader(errSentinel))
 				}
 				panic(val)
 			}
@@ -835,6 +917,8 @@ func replayRecCase(r *Run, v recVec, progress string, repanic bool, response str
 				hw = flusherWriter{w}
 			case "flusherr":
 				hw = flushErrWriter{w}
+			case "readerfrom":
+				hw = readerFromWriter{w}
 			}
 			var escaped any
 			didEscape := false
@@ -868,7 +952,7 @@ func replayRecCase(r *Run, v recVec, progress string, repanic bool, response str
 				}
 			case "untouched":
 				ws, wb := 0, ""
-				if cs.Progress != "none" {
+				if cs.Progress != "none" && cs.Progress != "emptycopy" {
 					ws = 202
 				}
 				if cs.Progress == "flushed" {
